@@ -1,6 +1,8 @@
 SPECIFICATION Spec
 CONSTANTS
   Proc = {p1}
+  BackupProcs = {p1}
+  PruneProcs = {p1}
   Version = {"v1"}
   Needs <- NeedsCollide
   KD = 1
